@@ -126,13 +126,13 @@ func permutedTokenCompExtras(t *rapid.T, m *MClaims) []byte {
 func isBeyondBuilders(m *MClaims) bool { return !m.IsCanned() }
 
 func TestC10_WireFormat(t *testing.T) {
-	st := NewStats("C10", "TestC10_WireFormat", "rapid: valid claims-sets of both profiles built (a) through NewClaims+setters (optionally on an object on which every claim had already been set to another valid value of possibly different length), (b) as struct literals, (c) by decoding independently encoded tokens with permuted key order, extra unknown keys at top level and inside component maps (incl. the P1 no-measurements form), optionally followed by an in-place update of one decoded component through the object the getter returns; the bytes of ValidateAndEncodeClaimsToCBOR are parsed by the independent reader and compared key by key with the model's wire map (definite lengths, no duplicates/tags/trailing bytes, exact key set, exact values, bare-bstr nonce, never list+flag). Non-trivial = not the canned builder shape; distinct = class vector + route")
-	st.Require = []string{"route=setters", "route=literal", "route=decoded", "route=decoded+touched", "route=setters-twice", "P1", "P2", "nomeas"}
+	st := NewStats("C10", "TestC10_WireFormat", "rapid: valid claims-sets of both profiles built (a) through NewClaims+setters (optionally on an object on which every claim had already been set to another valid value of possibly different length), (b) as struct literals, (c) by decoding independently encoded tokens with permuted key order, extra unknown keys at top level and inside component maps (incl. the P1 no-measurements form), optionally followed by an in-place update of one decoded component through the object the getter returns, (d) by decoding JSON written by the harness (absent optional claims optionally spelt as null members, unknown members, 64-bit flag values, rotated member order), (e) through setters with the SAME component object listed at several positions (in one call or one by one through the container's Add); the bytes of ValidateAndEncodeClaimsToCBOR are parsed by the independent reader and compared key by key with the model's wire map (definite lengths, no duplicates/tags/trailing bytes, exact key set, exact values, bare-bstr nonce, never list+flag). Non-trivial = not the canned builder shape; distinct = class vector + route")
+	st.Require = []string{"route=setters", "route=literal", "route=decoded", "route=decoded+touched", "route=setters-twice", "route=json-decoded", "route=shared-component", "P1", "P2", "nomeas"}
 	defer st.Flush(t)
 	rapid.Check(t, func(t *rapid.T) {
 		p := drawProf(t)
-		route := rapid.SampledFrom([]string{"setters", "literal", "decoded"}).Draw(t, "route")
-		m := GenValid(t, p, route == "setters")
+		route := rapid.SampledFrom([]string{"setters", "literal", "decoded", "setters", "decoded", "json-decoded", "shared-component"}).Draw(t, "route")
+		m := GenValid(t, p, route == "setters" || route == "shared-component")
 		var c psatoken.IClaims
 		var err error
 		switch route {
@@ -150,6 +150,96 @@ func TestC10_WireFormat(t *testing.T) {
 			}
 		case "literal":
 			c, _ = m.BuildLiteral()
+		case "shared-component":
+			// the caller lists the SAME component object more than once (two
+			// firmware slots holding the same image): the emitted list has
+			// one entry per listed position
+			if c, err = m.BuildSetters(); err != nil {
+				t.Fatalf("valid set cannot be built through setters: %v [%s]", err, m.ClassVector())
+			}
+			scs, gerr := c.GetSoftwareComponents()
+			if gerr != nil || len(scs) == 0 {
+				route = "setters"
+				break
+			}
+			list := append([]psatoken.ISwComponent{}, scs...)
+			mc := append([]*MComp{}, m.Comps...)
+			for k := rapid.IntRange(1, 3).Draw(t, "shared.n"); k > 0; k-- {
+				i := rapid.IntRange(0, len(list)-1).Draw(t, "shared.src")
+				at := rapid.IntRange(0, len(list)).Draw(t, "shared.at")
+				list = append(list[:at], append([]psatoken.ISwComponent{list[i]}, list[at:]...)...)
+				src := mc[i]
+				mc = append(mc[:at], append([]*MComp{src}, mc[at:]...)...)
+			}
+			if genBool.Draw(t, "shared.viaAdd") {
+				// one by one through the container's Add
+				if err := c.SetSoftwareComponents(list[:1]); err != nil {
+					t.Fatalf("C10: valid component list refused: %v", err)
+				}
+				type adder interface {
+					Add(...psatoken.ISwComponent) error
+				}
+				var cont any
+				switch cc := c.(type) {
+				case *psatoken.P1Claims:
+					cont = cc.SwComponents
+				case *psatoken.P2Claims:
+					cont = cc.SwComponents
+				}
+				a, ok := cont.(adder)
+				if !ok {
+					t.Fatalf("VERIF-INFRA: component container %T has no Add", cont)
+				}
+				for _, x := range list[1:] {
+					if err := a.Add(x); err != nil {
+						t.Fatalf("C10: adding a valid component refused: %v", err)
+					}
+				}
+			} else if err := c.SetSoftwareComponents(list); err != nil {
+				t.Fatalf("C10: valid component list refused: %v", err)
+			}
+			m.Comps = mc
+		case "json-decoded":
+			// a claims-set obtained by decoding JSON (the harness's own
+			// writer): absent optional claims optionally spelt as null
+			// members, unknown members, 64-bit flag values
+			o := modelJN(m)
+			if m.Profile != nil {
+				if p == P1 {
+					o.keys, o.vals = append(o.keys, "psa-profile"), append(o.vals, jStr(*m.Profile))
+				} else {
+					o.keys, o.vals = append(o.keys, "eat-profile"), append(o.vals, jStr(*m.Profile))
+				}
+			}
+			has := map[string]bool{}
+			for _, k := range o.keys {
+				has[k] = true
+			}
+			optional := []string{"psa-boot-seed", "psa-verification-service-indicator", "psa-certification-reference"}
+			if p == P1 {
+				optional = []string{"psa-boot-seed", "psa-verification-service-indicator", "psa-hwver", "psa-profile", "psa-software-components", "psa-no-software-measurements"}
+			}
+			for _, k := range optional {
+				if !has[k] && rapid.IntRange(0, 2).Draw(t, "null."+k) == 0 {
+					o.keys, o.vals = append(o.keys, k), append(o.vals, jNull())
+				}
+			}
+			if rapid.IntRange(0, 3).Draw(t, "unknown.member") == 0 {
+				o.keys, o.vals = append(o.keys, "x-vendor"), append(o.vals, rapid.SampledFrom([]*jn{jNull(), jNum("9007199254740993"), jStr("x"), jArr()}).Draw(t, "unknown.val"))
+			}
+			// rotate the member order
+			if n := len(o.keys); n > 1 {
+				r := rapid.IntRange(0, n-1).Draw(t, "rot")
+				o.keys = append(append([]string{}, o.keys[r:]...), o.keys[:r]...)
+				o.vals = append(append([]*jn{}, o.vals[r:]...), o.vals[:r]...)
+			}
+			doc := []byte(o.String())
+			c, err = psatoken.DecodeAndValidateClaimsFromJSON(doc)
+			if err != nil {
+				// whether null members are tolerated is C12's business
+				st.Case("", "json-not-accepted")
+				return
+			}
 		default:
 			tok := permutedTokenCompExtras(t, m)
 			c, err = psatoken.DecodeAndValidateClaimsFromCBOR(tok)
